@@ -322,9 +322,12 @@ def _eval_custom(case):
     if accepted != want:
         msgs.append("custom %d-vertex edge with is_valid()=%s, id absent=%s: %s" % (len(pt), case["verdict"], case["absent"], "ACCEPTED" if accepted else "REJECTED"))
     if accepted:
-        for k, vid in enumerate(named):
-            if e.vertices[k] is not verts[k]:
-                msgs.append("custom edge vertices[%d] is not the vertex with id %r" % (k, vid))
+        if e.vertices is None or len(e.vertices) != len(named):
+            msgs.append("custom edge accepted but left unbound (vertices=%r)" % (e.vertices,))
+        else:
+            for k, vid in enumerate(named):
+                if e.vertices[k] is not verts[k]:
+                    msgs.append("custom edge vertices[%d] is not the vertex with id %r" % (k, vid))
     return msgs, ("accepted" if accepted else "rejected")
 
 
@@ -383,6 +386,6 @@ def _eval_multi(case):
         msgs.append("graph with edges %r: %s but edge validity is %r" % ([_MULTI_EDGES[case["i"]], _MULTI_EDGES[case["j"]]], "ACCEPTED" if accepted else "REJECTED", wants))
     if accepted:
         for e, vs in zip(edges, bind):
-            if e.vertices[0] is not vs[0] or e.vertices[1] is not vs[1]:
+            if e.vertices is None or len(e.vertices) != 2 or e.vertices[0] is not vs[0] or e.vertices[1] is not vs[1]:
                 msgs.append("edge bound to the wrong vertex objects")
     return msgs, ("accepted" if accepted else "rejected")
